@@ -6,8 +6,19 @@ import (
 	"time"
 
 	"gorm.io/gorm"
+	"gorm.io/gorm/clause"
 	"gorm.io/gorm/internal/verifrt"
 )
+
+func countSub(s, sub string) int {
+	n := 0
+	for i := 0; i+len(sub) <= len(s); i++ {
+		if s[i:i+len(sub)] == sub {
+			n++
+		}
+	}
+	return n
+}
 
 // C03 — what Create stores is what queries load back. Round trip: Create binds
 // the record's values (real ConvertToCreateValues + database/sql's real
@@ -28,6 +39,11 @@ func c03Stub(s *Store) {
 			if e.Kind == "EXEC" && hasPrefix(e.Text, "INSERT") {
 				cols := insertCols(e.Text)
 				row := append([]driver.Value{}, e.Args...)
+				for _, c := range cols {
+					if c == "id" || c == "a" {
+						return RowSet{Cols: cols, Rows: [][]driver.Value{row}}
+					}
+				}
 				return RowSet{Cols: append(cols, "id"), Rows: [][]driver.Value{append(row, int64(5))}}
 			}
 		}
@@ -182,11 +198,11 @@ func c03Kinds() []c03Kind {
 			}
 		}},
 		{"time", func(db *gorm.DB, s *Store) {
-			in := KTime{V: time.Unix(int64(verifrt.Intn("sec", 0, 4000000000)), 0).UTC()}
+			in := KTime{V: time.Unix(int64(verifrt.Intn("sec", 0, 4000000000)), int64(verifrt.Intn("nsec", 0, 999999999))).UTC()}
 			ok(db.Create(&in), "create")
 			var out KTime
 			ok(db.First(&out), "first")
-			verifrt.Assert(out.V.Unix() == in.V.Unix(), "C03.value")
+			verifrt.Assert(out.V.Unix() == in.V.Unix() && out.V.Nanosecond() == in.V.Nanosecond(), "C03.value")
 		}},
 		{"unixtime-int64", func(db *gorm.DB, s *Store) {
 			in := KUnixInt{V: int64(verifrt.Intn("sec", 1, 4000000000))}
@@ -271,6 +287,70 @@ func c03Kinds() []c03Kind {
 			ok(db.First(&one), "first")
 			verifrt.Assert(out[1].V.Items[0] == b && out[0].V.Items[0] == a, "C03.earlier-record-changed")
 		}},
+		{"embedded", func(db *gorm.DB, s *Store) {
+			in := KEmbedded{Addr: Addr{City: verifrt.Bytes("c1", 1), Zip: verifrt.Int("z1")},
+				Work: Addr{City: verifrt.Bytes("c2", 1), Zip: verifrt.Int("z2")},
+				Home: &Addr{City: verifrt.Bytes("c3", 1), Zip: verifrt.Int("z3")}}
+			ok(db.Create(&in), "create")
+			var out KEmbedded
+			ok(db.First(&out), "first")
+			verifrt.Assert(out.Addr == in.Addr, "C03.value:embedded-anonymous")
+			verifrt.Assert(out.Work == in.Work, "C03.value:embedded-named")
+			verifrt.Assert(out.Home != nil && *out.Home == *in.Home, "C03.value:embedded-pointer")
+			m := map[string]interface{}{}
+			ok(db.Model(&KEmbedded{}).First(&m), "first-map")
+			verifrt.Assert(verifrt.SameValue(m["work_zip"], in.Work.Zip), "C03.map-value")
+			verifrt.Assert(verifrt.SameValue(m["addr_zip"], in.Addr.Zip), "C03.map-value")
+			verifrt.Assert(verifrt.SameValue(m["home_zip"], in.Home.Zip), "C03.map-value")
+			verifrt.Assert(len(m) == 7, "C03.map-columns")
+		}},
+		{"default-tags", func(db *gorm.DB, s *Store) {
+			zero := verifrt.Bool("zero")
+			in := KDefault{}
+			if !zero {
+				in = KDefault{Rank: verifrt.Int("rank"), Label: verifrt.Bytes("label", 1), On: true}
+				verifrt.Assume(in.Rank != 0)
+			}
+			ok(db.Create(&in), "create")
+			if zero {
+				verifrt.Assert(in.Rank == 7 && in.Label == "none" && in.On, "C03.default-not-on-record")
+			}
+			var out KDefault
+			ok(db.First(&out), "first")
+			verifrt.Assert(out.Rank == in.Rank && out.Label == in.Label && out.On == in.On, "C03.value")
+		}},
+		{"composite-key", func(db *gorm.DB, s *Store) {
+			in := KComposite{A: uint(verifrt.Intn("a", 1, 1000000)), B: verifrt.Bytes("b", 1), V: verifrt.Int("v")}
+			a, b := in.A, in.B
+			ok(db.Create(&in), "create")
+			verifrt.Assert(in.A == a && in.B == b, "C03.caller-key-changed")
+			var out KComposite
+			ok(db.First(&out), "first")
+			verifrt.Assert(out == in, "C03.value")
+		}},
+		{"auto-time", func(db *gorm.DB, s *Store) {
+			now := time.Unix(int64(verifrt.Intn("sec", 0, 4000000000)), int64(verifrt.Intn("nsec", 0, 999999999))).UTC()
+			db.Config.NowFunc = func() time.Time { return now }
+			in := KAutoTime{V: verifrt.Int("v")}
+			ok(db.Create(&in), "create")
+			verifrt.Assert(in.CreatedAt.Equal(now), "C03.auto-time-not-on-record:created_at")
+			verifrt.Assert(in.UpdatedAt == now.Unix(), "C03.auto-time-not-on-record:updated_at")
+			verifrt.Assert(in.Made == now.UnixMilli(), "C03.auto-time-not-on-record:milli")
+			verifrt.Assert(in.Nano == now.UnixNano(), "C03.auto-time-not-on-record:nano")
+			var out KAutoTime
+			ok(db.First(&out), "first")
+			verifrt.Assert(out.CreatedAt.Equal(in.CreatedAt) && out.UpdatedAt == in.UpdatedAt, "C03.value")
+			verifrt.Assert(out.Made == in.Made && out.Nano == in.Nano && out.V == in.V, "C03.value")
+		}},
+		{"float", func(db *gorm.DB, s *Store) {
+			vals := []float64{0, 1.5, -2.25, 1e300, 3.0e-5}
+			k := verifrt.Concretize(verifrt.Intn("k", 0, len(vals)-1), 0, len(vals)-1)
+			in := KFloat{V: vals[k], W: float32(vals[(k+1)%3])}
+			ok(db.Create(&in), "create")
+			var out KFloat
+			ok(db.First(&out), "first")
+			verifrt.Assert(out.V == in.V && out.W == in.W, "C03.value")
+		}},
 		{"create-from-map", func(db *gorm.DB, s *Store) {
 			v := verifrt.Int("v")
 			ok(db.Model(&KInt{}).Create(map[string]interface{}{"v": v}), "create")
@@ -278,6 +358,91 @@ func c03Kinds() []c03Kind {
 			ok(db.First(&out), "first")
 			verifrt.Assert(out.V == v, "C03.value")
 		}},
+	}
+}
+
+// ---- database-generated defaults and keys come back through RETURNING, in slice order
+
+func N_C03_Returning(tier int) int { return 18 }
+
+func H_C03_Returning(shape int) {
+	n := 1 + shape%3
+	pointers := (shape/3)%2 == 1
+	mode := shape / 6 // 0 plain, 1 upsert (ON CONFLICT UPDATE ALL), 2 CreateInBatches of 2
+	s := NewStore()
+	// the database generates key and code for every row; the generated values are symbolic
+	ids := []int64{int64(verifrt.Intn("id1", 1, 1000)), int64(verifrt.Intn("id2", 1, 1000)), int64(verifrt.Intn("id3", 1, 1000))}
+	codes := []string{verifrt.Bytes("code1", 1), verifrt.Bytes("code2", 1), verifrt.Bytes("code3", 1)}
+	next := 0
+	s.OnQuery = func(text string, args []driver.Value) RowSet {
+		rs := RowSet{}
+		if hasPrefix(text, "INSERT") {
+			cols, _ := between(text, " RETURNING ", "")
+			rs.Cols = quotedNames(cols)
+			tuples := 1 + countSub(text, "),(")
+			from := next
+			next += tuples
+			for i := from; i < from+tuples && i < n; i++ {
+				var row []driver.Value
+				for _, c := range rs.Cols {
+					switch c {
+					case "id":
+						row = append(row, ids[i])
+					case "code":
+						row = append(row, codes[i])
+					case "rank":
+						row = append(row, int64(7))
+					default:
+						row = append(row, nil)
+					}
+				}
+				rs.Rows = append(rs.Rows, row)
+			}
+		}
+		return rs
+	}
+	db := openReal(stubDialector{returning: true}, s, nil)
+	recs := make([]Ticket, n)
+	for i := range recs {
+		recs[i].Title = "t"
+	}
+	// one record may carry an explicit rank (then no default applies to it)
+	explicit := verifrt.Concretize(verifrt.Intn("explicit_rank_at", -1, n-1), -1, n-1)
+	if explicit >= 0 {
+		recs[explicit].Rank = 3
+	}
+	var res *gorm.DB
+	tx := db
+	if mode == 1 {
+		tx = db.Clauses(clause.OnConflict{UpdateAll: true})
+	}
+	if pointers {
+		ps := make([]*Ticket, n)
+		for i := range recs {
+			ps[i] = &recs[i]
+		}
+		if mode == 2 {
+			res = tx.CreateInBatches(&ps, 2)
+		} else {
+			res = tx.Create(&ps)
+		}
+	} else if mode == 2 {
+		res = tx.CreateInBatches(&recs, 2)
+	} else if n == 1 {
+		res = tx.Create(&recs[0])
+	} else {
+		res = tx.Create(&recs)
+	}
+	verifrt.Reach("created")
+	verifrt.Observe("log", s.Kinds())
+	verifrt.Assert(res.Error == nil, "C03.error")
+	verifrt.Assert(res.RowsAffected == int64(n), "C03.rows-affected")
+	for i := range recs {
+		verifrt.Assert(int64(recs[i].ID) == ids[i], "C03.returning-key-order")
+		verifrt.Assert(recs[i].Code == codes[i], "C03.returning-default-order")
+		if i == explicit {
+			verifrt.Assert(recs[i].Rank == 3, "C03.explicit-value-overwritten")
+		}
 	}
 }
 
